@@ -198,7 +198,7 @@ func (e *Engine) clone(st *State) *State {
 }
 
 func (st *State) addPC(c *Term) {
-	if c.IsTrue() {
+	if c.IsTrue() || st.known[c.id] {
 		return
 	}
 	st.pc = append(st.pc, c)
@@ -1269,10 +1269,14 @@ func (e *Engine) ifOp(st *State, fr *Frame, x *ssa.If) {
 
 // run executes st until a signal; returns the signal (forkReq or pathEnd).
 func (e *Engine) run(st *State, stop func(*State) bool) (sig interface{}) {
+	ndLen := len(st.nd)
 	defer func() {
 		if r := recover(); r != nil {
 			switch r.(type) {
-			case forkReq, pathEnd, mergeAbort:
+			case forkReq:
+				st.nd = st.nd[:ndLen] // the instruction is re-executed after the fork
+				sig = r
+			case pathEnd, mergeAbort:
 				sig = r
 			default:
 				fmt.Fprintf(os.Stderr, "ENGINE PANIC at %s: %v\n", e.site(st), r)
@@ -1284,6 +1288,7 @@ func (e *Engine) run(st *State, stop func(*State) bool) (sig interface{}) {
 		if stop != nil && stop(st) {
 			return nil
 		}
+		ndLen = len(st.nd)
 		e.step(st)
 	}
 }
